@@ -40,7 +40,7 @@ from unified_planning.engines.compilers.utils import (
     updated_minimize_action_costs,
 )
 from unified_planning.exceptions import UPExpressionDefinitionError, UPUsageError
-from typing import List, Dict, Union, Optional
+from typing import List, Dict, Set, Union, Optional
 from functools import partial
 
 
@@ -49,6 +49,8 @@ class NegativeFluentRemover(IdentityDagWalker):
         self._env = environment
         IdentityDagWalker.__init__(self, self._env)
         self._fluent_mapping: Dict[Fluent, Fluent] = {}
+        # names of the negation fluents created so far: they are not in the problem yet
+        self._used_names: Set[str] = set()
         self._problem = problem
         self._nnf = Nnf(self._env)
 
@@ -106,11 +108,14 @@ class NegativeFluentRemover(IdentityDagWalker):
             else:
                 # make a new one
                 nf = Fluent(
-                    get_fresh_name(self._problem, f"not_{f.name}"),
+                    get_fresh_name(
+                        self._problem, f"not_{f.name}", used_names=self._used_names
+                    ),
                     f.type,
                     f.signature,
                     f._env,
                 )
+            self._used_names.add(nf.name)
             self._fluent_mapping[f] = nf
             return self._env.expression_manager.FluentExp(nf, tuple(args[0].args))
         elif args[0].is_equals():
